@@ -14,19 +14,19 @@ func init() {
 	serve("C05", "V2", "V1", "V4", "V5", "V7", "V9")
 	serve("C06", "T1", "T2", "T3", "T4", "T5", "T8", "T10", "T12", "B2", "B3", "V1", "G6")
 	serve("C07", "B6", "B6m", "G5", "G6", "G6r", "B2", "B3", "T8", "W9", "W10", "U1")
-	serve("C08", "G4", "G8", "G12", "G18", "G19", "G6", "R4", "B6", "B6m")
-	serve("C09", "L1", "L2", "L8", "P3", "P3c", "P8", "L6", "S4", "G7", "G7r", "G16")
-	serve("C10", "P3", "P3w", "P4", "P5", "P7", "L1", "L8", "G15", "G16", "G21")
-	serve("C11", "R1", "R2", "R3", "R4", "P1", "P2", "G17", "P11")
-	serve("C12", "S2", "S3", "S4", "S6", "S7", "S8", "V3")
+	serve("C08", "G4", "G8", "G12", "G18", "G19", "G6", "R4", "B6", "B6m", "G27", "G16")
+	serve("C09", "L1", "L2", "L8", "P3", "P3c", "P8", "L6", "S4", "G7", "G7r", "G16", "P12", "L11")
+	serve("C10", "P3", "P3w", "P4", "P5", "P7", "L1", "L8", "G15", "G16", "G21", "P12")
+	serve("C11", "R1", "R2", "R3", "R4", "P1", "P2", "G17", "P11", "W5", "P8")
+	serve("C12", "S2", "S3", "S4", "S6", "S7", "S8", "V3", "G16")
 	serve("C13", "S1", "S5", "S7")
-	serve("C14", "L4", "L1", "L5", "L8", "G6", "G6r", "V1", "V7", "V8")
-	serve("C15", "L1", "L8", "L9", "G3", "G13", "L7")
-	serve("C16", "G1", "G1b", "G9", "G10", "G10b", "R4")
-	serve("C17", "P1", "L2", "L3", "G11", "G20")
-	serve("C18", "L1", "L2", "L6", "L8", "P2", "R4", "G10", "G14", "G17")
-	serve("C19", "P3", "P6", "P9", "P10", "G21", "L1", "L6", "L8")
-	serve("C20", "G2", "R4", "L2", "L3")
+	serve("C14", "L4", "L1", "L5", "L8", "G6", "G6r", "V1", "V7", "V8", "L10", "L11")
+	serve("C15", "L1", "L8", "L9", "G3", "G13", "L7", "G22", "G23")
+	serve("C16", "G1", "G1b", "G9", "G10", "G10b", "R4", "G25", "G26")
+	serve("C17", "P1", "L2", "L3", "G11", "G20", "G24")
+	serve("C18", "L1", "L2", "L6", "L8", "P2", "R4", "G10", "G14", "G17", "L10", "G25")
+	serve("C19", "P3", "P6", "P9", "P10", "G21", "L1", "L6", "L8", "P12", "P13")
+	serve("C20", "G2", "R4", "L2", "L3", "L10")
 }
 
 func init() {
